@@ -9,6 +9,7 @@ package pipeline
 // element is nil (undefined marks), unloaded elements that have meanwhile disappeared
 // from the graph (the lookup returns nil) and no aggregation.
 //@ func Convert
+//@   vars graph dataType markTypes t ve lv ee le selections k v lv ve le ee sValue path o i j sValue agg sValue
 //@   property C06
 //@   option prelude=trav
 //@   option load=gdbi,gripql
